@@ -257,6 +257,50 @@ theorem fresh_defaults {V : Type} (cv : Conv V) (cfg : Cfg V) (s : Sheet)
     exact callIdxs_lt cfg.numId slots curs 0 i i' _ _ curs[i] hii hkk hkk' (by simp [hic])
       (construct_some_ranInit cv _ _ _ _ _ o hcon)
 
+/-- One call per use, none otherwise. The defaults of an object are the results of call number
+`o.serial` of the declared factories (`value_at_origin`), and `o.serial` is exactly the number of
+earlier data rows of the table for which `__init__` ran — each of which took every default once:
+nothing else calls a factory. -/
+theorem default_calls {V : Type} (cv : Conv V) (cfg : Cfg V) (s : Sheet)
+    (objs : List (Option (Obj V))) (err : Option Err) (h : iterTable cv cfg s = ⟨objs, err⟩)
+    (i : Nat) (o : Obj V) (ho : objs[i]? = some (some o)) :
+    ∃ pre title data tail slots curs, s = pre ++ title :: (data ++ tail) ∧
+      bindTitles (title.map fun c => titleOf c.val) cfg.known cfg.rules = .ok slots ∧
+      curRows (ladderPos cfg (title.map fun c => titleOf c.val)) none data = .ok curs ∧
+      o.serial = ((curs.take i).filter (ranInit cfg.numId slots)).length := by
+  rcases one_per_row cv cfg s objs err h with ⟨h1, _⟩ | ⟨pre, title, data, tail, slots, curs, h1, _, _, h4, _, _, _, h8, h9, _, h11⟩
+  · rw [h1] at ho; simp at ho
+  · have hi : i < data.length := by have := getElem?_lt_of_some _ _ _ ho; omega
+    have hcl := (curRows_step _ data none curs h9).1
+    have hkl := callIdxs_length cfg.numId slots curs 0
+    have hic : i < curs.length := by omega
+    have hkk : (callIdxs cfg.numId slots 0 curs)[i]? = some (callIdxs cfg.numId slots 0 curs)[i] := by
+      simp [show i < (callIdxs cfg.numId slots 0 curs).length by omega]
+    have hcon := h11 i curs[i] _ (some o) (by simp [hic]) hkk ho
+    obtain ⟨_, _, _, hser⟩ := construct_some cv _ _ _ _ _ o hcon
+    refine ⟨pre, title, data, tail, slots, curs, h1, h4, h9, ?_⟩
+    rw [hser, callIdxs_count cfg.numId slots curs 0 i _ hkk]
+    simp
+
+/-- … none otherwise: an optional attribute whose column is in the sheet is bound to that column
+whatever its default is, and its value is computed from the cell without the default. Declaring a
+default (a counter, a sequence shared with other attributes, …) for a column that is present has no
+effect on the read, and the read has none on the factory (`unusedDefaults`: its next call is call
+number 0). -/
+theorem default_unused {V : Type} (cv : Conv V) (titles known : List Key) (t : Key) (ct : Nat)
+    (d d' : Option (Nat → V)) (j : Nat) (hb : bindRule titles known (.col t ct d) = .ok (.at j)) :
+    bindRule titles known (.col t ct d') = .ok (.at j) ∧
+    ∀ (k k' : Nat) (c : Cell), initAttr cv k (.col t ct d) (.cell c) = initAttr cv k' (.col t ct d') (.cell c) := by
+  constructor
+  · simp only [bindRule] at hb ⊢
+    cases hl : lookupLast titles t with
+    | some j' => rw [hl] at hb; exact hb
+    | none =>
+      rw [hl] at hb
+      simp only [] at hb
+      split at hb <;> cases hb
+  · intro k k' c; rfl
+
 /-- `None` results. A data row yields `None` instead of an object only if the class has key
 attributes and either every key attribute is a plain column whose cell for that row (`Holder`) is
 blank (`cell.value is None`), or the object could be built and the value of every key attribute —
